@@ -156,7 +156,7 @@ def finish(rep, seed=0, floors=None):
         'samples': samples[:60],
         'undecided_list': [o.to_json() for o in rep.obs if o.status == UNDECIDED][:80],
         'notes': rep.notes,
-        'exhaustive': False,
+        'exhaustive': bool(getattr(rep, 'exhaustive', False)),
     }
     ev = {'property_id': rep.prop, 'tier': rep.tier, 'seed': seed,
           'level': rep.level, 'coverage': cov, 'assumptions': rep.assumptions,
